@@ -106,7 +106,7 @@ class Synth:
         self.case = case
         self.rabin = bool(case['rabin'])
         aut = fam.build_game(case)
-        if reuse and case['env']:
+        if reuse:
             # history: the same automaton first solved with every variable
             # owned by the component, then ownership edited IN PLACE
             env_names = list(aut.varlist['env'])
@@ -117,6 +117,13 @@ class Synth:
             for v in env_names:
                 aut.varlist['sys'].remove(v)
             aut.varlist['env'].extend(env_names)
+            # ... and once with each mode flag flipped on its own
+            aut.plus_one = not aut.plus_one
+            solve(aut, self.rabin)
+            aut.plus_one = not aut.plus_one
+            aut.moore = not aut.moore
+            solve(aut, self.rabin)
+            aut.moore = not aut.moore
         self.aut = aut
         self.gm = fam.GameModel(aut, case)
         self.P = [self.gm.state_table(u) for u in aut.win['<>[]']]
